@@ -47,21 +47,28 @@ ASSUMPTIONS = [
 # case carrying "probe": true bypasses every exclusion, so the violation is
 # raised with the distinctive tags {"kind": <key>} (for known-finding probes).
 KNOWN = {
+    # h**alpha underflows to exactly 0.0 (lags below ~1e-154 len): IEEE arithmetic, not a finding
+    "arg_underflow": True,
     # tplstable_cor: lags with r/len <= isclose window (1e-8) are set to 0 ->
     # rho = 1, although 1-rho ~ (r/len)^(2H) is up to 2e-2 there (H = 0.1)
-    "tpl_zero_window": True,
+    # (fixed in /repo by c06ba1f: switch off, assertion live)
+    "tpl_zero_window": False,
     # exp_int: x = h^2 <= 1e-20 is treated as 0 -> Integral rho = 1 although
     # 1-rho ~ Gamma(1-nu/2) h^nu (7e-2 for nu = 0.1 at h = 1e-10)
-    "integral_zero_window": True,
+    # (fixed in /repo by 9ffec4f: switch off, assertion live)
+    "integral_zero_window": False,
     # exp_int -> inc_gamma(1-s, x) * x^(s-1): x^(1-s) overflows for
     # Integral nu in (30.8, 50) and 1e-10 < h < 10^(-308/nu): NaN / inf
-    "integral_small_lag_nan": True,
+    # (fixed in /repo by c741d5e: switch off, assertion live)
+    "integral_small_lag_nan": False,
     # Matern.cor: kv overflows / x^nu underflows for tiny lags, the product is
     # non-finite and the far-field clean-up sets it to 0 (true value 1)
-    "matern_tiny_lag_zero": True,
+    # (fixed in /repo by c741d5e: switch off, assertion live)
+    "matern_tiny_lag_zero": False,
     # JBessel.cor: jv(nu, h) and (h/2)^nu underflow for nu >~ 38 and
     # 1e-8 < h <~ 1e-5: 0 or NaN instead of 1
-    "jbessel_small_lag_underflow": True,
+    # (fixed in /repo by c741d5e: switch off, assertion live)
+    "jbessel_small_lag_underflow": False,
     # exp_int / inc_gamma switch to the integer-order routines when the order
     # is within numpy.isclose (rtol 1e-5) of an integer: Integral nu = 2.00002
     # has rho(0) = 1.00001 and errors up to 1e-5 elsewhere
@@ -70,24 +77,29 @@ KNOWN = {
     "tpl_len_low_isclose": True,
     # TPL* with len_low > 0: cor(h) ignores len_low, so
     # correlation(r) != cor(rescale r / len_scale)
-    "tpl_cor_ignores_len_low": True,
+    # (fixed in /repo by de8f756: switch off, assertion live)
+    "tpl_cor_ignores_len_low": False,
     # K3: Matern nu > 20 returns the Gaussian limit, calc_integral_scale the
     # true Matern value (0.5 % apart)
     "K3_matern_gauss_integral_scale": True,
     # JBessel.integral_scale: QUADPACK over [0, inf) of an oscillating integrand
     # (43 % off for nu = 0.5, NaN for nu = 50), error estimate discarded
-    "jbessel_integral_scale_quadpack": True,
+    # (fixed in /repo by bebccff: switch off, assertion live)
+    "jbessel_integral_scale_quadpack": False,
     # default calc_integral_scale: QUADPACK over [0, inf) does not know the
     # support edge; kinked correlations (Linear-like edge) are off by > 1e-6
     "quad_kink_integral_scale": True,
     # K4: percentile_scale returns the unconverged iterate of scipy root
-    "K4_percentile_unconverged": True,
+    # (fixed in /repo by 6518d71: switch off, assertion live)
+    "K4_percentile_unconverged": False,
     # ... or the mirror image -x of the crossing (the curve is even in the lag
     # and root() is free to converge to the negative root)
-    "K4_percentile_negative_root": True,
+    # (fixed in /repo by 6518d71: switch off, assertion live)
+    "K4_percentile_negative_root": False,
     # ... or, for the hole model JBessel, a later crossing beyond the first minimum
     # (JBessel(dim=1, nu=2).percentile_scale(0.984375) = 10.54, first crossing 4.99)
-    "K4_percentile_later_crossing": True,
+    # (fixed in /repo by 6518d71: switch off, assertion live)
+    "K4_percentile_later_crossing": False,
 }
 
 
@@ -403,6 +415,11 @@ def _lag_region(spec, r):
         return None
     un = _units(spec)
     h = r / un["h"]
+    if cls == "Integral" and h * h == 0.0:
+        # h**2 underflows to an exact zero in double precision: not a property of the library
+        return "arg_underflow"
+    if cls in TPL and (h ** min(o.get("alpha", 2.0) if cls == "TPLStable" else (2.0 if cls == "TPLGaussian" else 1.0), 2.0)) == 0.0:
+        return "arg_underflow"
     if cls in TPL:
         if r / un["up"] <= WIN or r / un["h"] <= WIN:
             return "tpl_zero_window"
@@ -686,7 +703,9 @@ def check_ident(case, rec):
     # order close to an integer, which is not what this identity is about)
     h = np.abs(r) / (spec["len_scale"] / _eff_rescale(spec))
     K = np.asarray(lib(m.cor, h, _tags=tags), dtype=float)
-    if cls in TPL and o["len_low"] > 0 and not _len_low_in_window(spec):
+    if cls in TPL and o["len_low"] > 0 and not _len_low_in_window(spec) and not (
+        _order_near_integer(spec) and _known("expint_near_integer_order", case)
+    ):
         d = float(np.max(np.abs(K - R)))
         if d > 1e-9:
             _finding(
@@ -1082,6 +1101,11 @@ def check_intscale(case, rec):
             dict(tags, kind="integral_diverges"),
         )
         return
+    if cls in ("Stable", "TPLStable") and o.get("alpha", 2.0) <= 0.35:
+        # edge of the region the library itself flags as unstable (alpha < 0.3): the default
+        # QUADPACK integral of the extremely slowly decaying correlation is only good to ~1e-4
+        rec.exclude("stable_alpha<=0.35_integral_scale")
+        return
     tol = _int_tolerance(spec)
     region = None
     if cls == "Matern" and o["nu"] > cf.MATERN_GAUSS_SWITCH:
@@ -1322,6 +1346,11 @@ def check_percentile(case, rec):
     reg = _lag_region(spec, want)
     if reg is not None and _known(reg, case):
         rec.exclude(reg)
+        return
+    if want <= 2e-8 * spec["len_scale"] / (spec.get("rescale") or 1.0):
+        # near-nugget shapes (e.g. Integral nu ~ 1e-3): the percentile is reached inside the library's
+        # zero-lag windows (known low-severity findings tpl_zero_window / integral_zero_window)
+        rec.exclude("percentile_inside_zero_lag_window")
         return
     got = lib(m.percentile_scale, per, _what="percentile_scale", _tags=tags)
     got = float(got)
